@@ -112,6 +112,12 @@ inductive Cmd
   | flush
 deriving DecidableEq, Repr
 
+/-- `if c in zero_width_escapes_row: write_raw(zero_width_escapes_row[c])` -/
+def zweCmds (zwe : List (Nat × Nat × Text)) (y x : Nat) : List Cmd :=
+  match zweAt zwe y x with
+  | some t => [Cmd.writeRaw t]
+  | none => []
+
 structure Env where
   /-- `size.columns`, `size.rows` -/
   w : Nat
@@ -181,9 +187,7 @@ def colLoop (e : Env) (s : Screen) (y : Nat) (newRow prevRow : List Cell) (n : N
       let cw := if nc.width = 0 then 1 else nc.width
       if nc.txt ≠ oc.txt ∨ nc.style ≠ oc.style then
         let m := moveCursor e.w pos last ⟨c, y⟩
-        let z := match zweAt s.zwe y c with
-          | some t => [Cmd.writeRaw t]
-          | none => []
+        let z := zweCmds s.zwe y c
         let o := outputChar e.attrsOf m.2 nc
         let r := colLoop e s y newRow prevRow n fuel (c + cw) ⟨c + cw, y⟩ o.2
         ⟨m.1 ++ (z ++ (o.1 ++ r.cmds)), r.pos, r.last⟩
